@@ -12,15 +12,26 @@ Proof. vm_compute. reflexivity. Qed.
 Lemma dispatch_others_handled : forall k, k <> KBatch -> dispatch_handled k = true.
 Proof. intros [] H; try reflexivity. congruence. Qed.
 
-Lemma kind_of_not_batch : forall c, kind_of c <> KBatch.
-Proof. intros []; discriminate. Qed.
+Definition is_batch (c : command) : bool := match c with CBatch _ => true | _ => false end.
 
-(** every command the modelled parsers return has a dispatch arm *)
-Lemma parsed_commands_dispatched : forall fx s c, parse_command fx s = POk c -> dispatch_handled (kind_of c) = true.
-Proof. intros. apply dispatch_others_handled, kind_of_not_batch. Qed.
+Lemma kind_of_batch_iff : forall c, kind_of c = KBatch <-> is_batch c = true.
+Proof. intros []; cbn; split; intro H; try discriminate; auto. Qed.
+
+(** every command the modelled parsers return, other than a batch, has a dispatch arm *)
+Lemma parsed_commands_dispatched : forall fx s c, parse_command fx s = POk c -> is_batch c = false ->
+  dispatch_handled (kind_of c) = true.
+Proof.
+  intros fx s c _ Hb. apply dispatch_others_handled. intro E. apply kind_of_batch_iff in E. congruence.
+Qed.
 
 Lemma dispatch_refuted : exists k, In k all_kinds /\ dispatch_handled k = false.
 Proof. exists KBatch. split; [cbn; tauto|apply dispatch_batch_unhandled]. Qed.
+
+(** BATCH [ PING ] parses (to a batch) and has no dispatch arm *)
+Lemma dispatch_refuted_parsed :
+  parse_command_cur [66;65;84;67;72;32;91;32;80;73;78;71;32;93] = POk (CBatch [CPing]) /\
+  dispatch_handled (kind_of (CBatch [CPing])) = false.
+Proof. split; vm_compute; reflexivity. Qed.
 
 (** * Former panic witnesses (LIMIT 4294967296, OFFSET -1, x = 99999999999999999999, x = 1e309 written
     out): since 57cd0c4 the conversions are fallible grammar actions and these are plain parse errors *)
